@@ -14,9 +14,11 @@ import (
 	"errors"
 	"fmt"
 	"math/bits"
+	"sort"
 	"strings"
 	"time"
 
+	. "gethverif/harness/hxlib"
 	"github.com/ethereum/go-ethereum/beacon/light"
 	"github.com/ethereum/go-ethereum/beacon/merkle"
 	"github.com/ethereum/go-ethereum/beacon/params"
@@ -24,7 +26,6 @@ import (
 	"github.com/ethereum/go-ethereum/common"
 	"github.com/ethereum/go-ethereum/common/mclock"
 	"github.com/ethereum/go-ethereum/ethdb/memorydb"
-	. "gethverif/harness/hxlib"
 )
 
 // ---------------------------------------------------------------- concretisation
@@ -285,6 +286,7 @@ type world struct {
 	ht        *light.HeadTracker
 	clock     *mclock.Simulated
 	trusted   map[common.Hash]bool
+	ever      map[uint64]map[uint64]bool // period -> committee numbers the chain has ever stored there
 }
 
 func (w *world) setClock(now int64) {
@@ -359,6 +361,79 @@ func (w *world) signedBy(c uint64, sh types.SignedHeader) bool {
 }
 
 // oracle evaluated on the implementation state after every operation
+// probe oracle, the property stated directly on VerifySignedHeader: for every period p
+// around everything the chain has ever covered and every committee X that was ever stored
+// at p (plus the genuine one), a full-participation header of period p signed by X is
+// accepted ONLY IF X is the committee the chain stores for p NOW.  In particular headers
+// of periods outside the committee range, or signed by a rolled-back committee, are
+// rejected.  The probes run after every operation, so the chain's deserialized-committee
+// cache is warm before any rollback.
+func (w *world) probe() []string {
+	var fails []string
+	_, _, cs, ce, _, _ := w.chain.VerifRanges()
+	for p := cs; p < ce; p++ {
+		if c, ok := w.chain.VerifCommittee(p); ok {
+			if id, exact := committeeID(c); exact {
+				if w.ever[p] == nil {
+					w.ever[p] = map[uint64]bool{}
+				}
+				w.ever[p][id] = true
+			}
+		}
+	}
+	lo, hi, first := uint64(0), uint64(0), true
+	for p := range w.ever {
+		if first || p < lo {
+			lo = p
+		}
+		if first || p > hi {
+			hi = p
+		}
+		first = false
+	}
+	if first {
+		lo, hi = 0, 1
+	}
+	if lo > 0 {
+		lo--
+	}
+	var signers [64]byte
+	for i := range signers {
+		signers[i] = 0xff
+	}
+	for p := lo; p <= hi+2; p++ {
+		cands := map[uint64]bool{genuineBase + p: true}
+		for id := range w.ever[p] {
+			cands[id] = true
+		}
+		var stored *types.SerializedSyncCommittee
+		if p >= cs && p < ce {
+			stored, _ = w.chain.VerifCommittee(p)
+		}
+		for id := range cands {
+			h := types.Header{Slot: p*params.SyncPeriodLength + 17, ProposerIndex: id, StateRoot: common.Hash{1}}
+			root, err := w.cfg.Forks.SigningRoot(h.Epoch(), h.Hash())
+			if err != nil {
+				continue
+			}
+			sh := types.SignedHeader{Header: h, SignatureSlot: h.Slot + 1}
+			sh.Signature.Signers = signers
+			sh.Signature.Signature = light.VerifMakeDummySignature(committee(id), root, signers)
+			ok, _, _ := w.chain.VerifySignedHeader(sh)
+			if ok && (stored == nil || *stored != *committee(id)) {
+				what := "no committee is stored for that period"
+				if stored != nil {
+					sid, _ := committeeID(stored)
+					what = fmt.Sprintf("the chain stores committee #%d there", sid)
+				}
+				fails = append(fails, fmt.Sprintf("VerifySignedHeader accepts a header of period %d signed by committee #%d, but %s", p, id, what))
+			}
+		}
+	}
+	sort.Strings(fails)
+	return fails
+}
+
 func (w *world) oracle(mode int) []string {
 	var fails []string
 	fs, fe, cs, ce, us, ue := w.chain.VerifRanges()
@@ -447,7 +522,7 @@ func run(c Sx) Result {
 		shape("cfg")
 	}
 	k := newConc()
-	w := &world{k: k, threshold: AsInt(cl[0]), trusted: map[common.Hash]bool{}}
+	w := &world{k: k, threshold: AsInt(cl[0]), trusted: map[common.Hash]bool{}, ever: map[uint64]map[uint64]bool{}}
 	w.cfg = &params.ChainConfig{GenesisTime: AsU64(cl[2])}
 	for _, f := range AsList(cl[3]) {
 		fl := AsList(f)
@@ -579,6 +654,9 @@ func run(c Sx) Result {
 		for _, f := range w.oracle(mode) {
 			fails = append(fails, fmt.Sprintf("after op %d: %s", i, f))
 		}
+		for _, f := range w.probe() {
+			fails = append(fails, fmt.Sprintf("after op %d: %s", i, f))
+		}
 	}
 	if obs == nil {
 		obs = SL{}
@@ -618,8 +696,8 @@ func lit64(n uint64) Sx {
 
 var zeroT = B(make([]byte, 32))
 
-func nd(l, r Sx) Sx   { return L(I(1), l, r) }
-func cr(c uint64) Sx  { return L(I(0), U(c)) }
+func nd(l, r Sx) Sx  { return L(I(1), l, r) }
+func cr(c uint64) Sx { return L(I(0), U(c)) }
 func hdr(slot, prop uint64, parent, state, body Sx) Sx {
 	return L(U(slot), U(prop), parent, state, body)
 }
@@ -1156,9 +1234,9 @@ func genAll(r *Rng, tier string, emit func(Sx)) {
 
 func main() {
 	Main(Family{
-		ID: "C53",
+		ID:   "C53",
 		Rule: "each case is one scenario over a fresh light.CommitteeChain (dummy test verifier, memory DB, simulated clock) and light.HeadTracker: a trusted bootstrap (or addFixedCommitteeRoot/addCommittee setup) at a random period, forged bootstraps, then for 2-6 periods genuine updates (random signer counts, finalized or not, duplicates, better/worse scores) and forged updates of 15 classes (header signed in the next period by the next committee, finalized header of another period, bad finality branch, too few signers, forged signer committee, wrong-period signer, tampered / short / long branch, forged next root, signature slot in another period, changed bitmask, junk signature, transplanted signature, version confusion, forged next committee) delivered through Validate-then-InsertUpdate in shuffled order with gaps and re-deliveries, signed heads through HeadTracker.ValidateOptimistic, re-initialisation checkpoints; mode 1 additionally contains an equivocating alternative chain and fixed-root changes to reach the reorg/rollback paths (security oracle off, structural oracle on). Non-trivial: at least two updates accepted with a state change and at least one delivery rejected in the scenario; distinct = distinct case line.",
-		Gen: genAll,
-		Run: run,
+		Gen:  genAll,
+		Run:  run,
 	})
 }
